@@ -154,12 +154,12 @@ class HasFilter(FindFilter):
 
         elif value is not None and not is_undefined(value):
             return any(
-                (itm for itm in left if _getitem(itm, key) == value),
+                (True for itm in left if _getitem(itm, key) == value),
             )
 
         else:
             return any(
-                (itm for itm in left if is_truthy(_getitem(itm, key))),
+                (True for itm in left if is_truthy(_getitem(itm, key))),
             )
 
         return False
